@@ -40,11 +40,11 @@ CHECKS = {
         note="Sampled histories; F4 matched only when the root entry is the single missed occurrence.", ref="DESIGN.md section 4 C10"),
     "C12": dict(
         cat="model_checking", tech="exhaustive dump of attack tables judged entry-by-entry by Geometry.tla ray walking in TLC; mask lemma checked exhaustively",
-        text="All 107,648 rook/bishop entries (every subset of the geometric relevant-occupancy mask of every square, completeness counted), king/knight/pawn entries, all 4,096 in-between pairs, plus random full-board occupancies; TLC recomputes each by ray walking. MaskLemma/OffRayLemma discharge the 'squares outside the mask never matter' obligation.",
+        text="All 107,648 rook/bishop entries (every subset of the geometric relevant-occupancy mask of every square, completeness counted), king/knight/pawn entries, all 4,096 in-between pairs, every subset again with ALL squares outside the mask occupied and the extreme subsets with each single outside square, plus random full-board occupancies; TLC recomputes each by ray walking. MaskLemma/OffRayLemma discharge the 'squares outside the mask never matter' obligation.",
         note="Complete for the stated index space.", ref="DESIGN.md section 4 C12"),
     "C14": dict(
         cat="model_checking", tech="Apalache proves the requirement for the formula model on the full domain; TLC binds formula model and requirement to VerifLimits and to a real driver",
-        text="TimeCtl.tla states the requirement and the formula model; Apalache discharges Requirement(HardModel) for t in 1..10^12, inc in 0..10^9; TLC checks every recorded clock state (dense boundary grid, random to 10^12, both colours, movetime variants, 5 opponent clocks each, driver path) against requirement and formula model.",
+        text="TimeCtl.tla states the requirement and the formula model; Apalache discharges Requirement(HardModel) for t in 1..10^12, inc in 0..10^9; TLC checks every recorded clock state (dense boundary grid, random to 10^12, both colours, movetime variants, 8 opponent clocks each incl. 0/absent, driver path) against requirement and formula model. Six deadline probes per run: a blocking search under go wtime / go ponder+ponderhit while the GUI keeps sending harmless lines must be ended by the driver's timer within hard + 5 s (one-sided).",
         note="Formula model compared below ~9*10^8 only (32-bit TLC integers); requirement compared everywhere via limbs.", ref="DESIGN.md section 4 C14"),
 }
 
@@ -60,7 +60,7 @@ CHECKS.update({
         note="Sampled searches.", ref="DESIGN.md section 4 C07"),
     "C08": dict(
         cat="model_checking", tech="whole games on separate engine instances: soft-limit run A, concurrent repeats C/D, hard-budget replay B; ReproTrace.tla compares lines, results, node counts and state digests; Search.tla NeverOverBudget/NoStoreAfterAbort",
-        text="Engines are run exactly as the UCI driver runs them (no counters handed in), boards from board.StartPos() and FEN; A=C=D on every search (info lines without time, result, node count, digest of TT+histories+generation), B (hard budget = A's node count) reproduces A's result, lines, node count and digest with at most one extra abort line; nodes <= hard at every event incl. every budget 0..k in sweeps.",
+        text="Engines are run exactly as the UCI driver runs them (no counters handed in), boards from board.StartPos() and FEN; A=C=D on every search (info lines without time, result, node count, digest of TT+histories+generation), B (hard budget = A's node count) reproduces A's result, lines, node count and digest with at most one extra abort line; nodes <= hard at every event incl. every budget 0..k in sweeps and ponder searches with small hard budgets.",
         note="Digest is FNV over TT + history tables (verif hook).", ref="DESIGN.md section 4 C08"),
     "C11": dict(
         cat="exploration", tech="TLC (Fen.tla) generates canonical texts with their positions and all single syntactic edits; Go replayer probes parser/printer/UCI; TLC judges (FenTrace.tla); round trip via GameTrace",
@@ -76,11 +76,11 @@ CHECKS.update({
         note="Victim choice is modelled (any divergence from the code's choice is reported); the exact mate boundary +-(Inf-64) accepts both readings.", ref="DESIGN.md section 4 C15"),
     "C16": dict(
         cat="model_checking", tech="Picker.tla and History.tla model-checked (permutation / hash-first for all small instances; one-step band bound over all stored values x bonuses; necessity counterexample); TLC trace validation of picker runs and gravity triples",
-        text="Picker iterated to exhaustion for sampled positions x hash-move candidates (every generated move, none, random and near-miss encodings) x history states (empty, driven, saturated): yielded = Pseudo(pos) exactly once each, hash move first iff pseudo-legal (spec's notion), weights inside their bands. Gravity: (table, stored value, bonus, new value) for all three tables against History!Step and the band.",
+        text="Picker iterated to exhaustion for sampled positions x hash-move candidates (every generated move, none, random and near-miss encodings, the four castling encodings) x history states (empty, driven, saturated): yielded = Pseudo(pos) exactly once each, hash move first iff pseudo-legal (spec's notion), weights inside their bands. Gravity: (table, stored value, bonus, new value) for all three tables against History!Step and the band.",
         note="Positions sampled; History one-step bound exhaustive in the thorough tier, thinned rows in quick.", ref="DESIGN.md section 4 C16"),
     "C17": dict(
         cat="exploration", tech="TLC (HeurTrace.tla) re-establishes mirror / same-eval-key relations with Chess!Mirror and requires equal evaluations",
-        text="For each sampled position: evaluation of the position, of its mirror (built independently, verified by Chess!Mirror), again after unrelated evaluations, with rights/en-passant/fullmove changed, after null-move and make/undo round trips, loaded without hash, and through the UCI eval command; material classes forced (promoted pieces, bare kings, insufficient material, KNB v K both colours).",
+        text="For each sampled position: evaluation of the position, of its mirror (built independently, verified by Chess!Mirror), again after unrelated evaluations, with rights/en-passant/fullmove changed, after null-move and make/undo round trips, loaded without hash, and through the UCI eval command; material classes forced (promoted pieces, bare kings, any number of minor pieces, bishop/knight + pawns on one file, stacked rook pawns with the bare king near the corner, KNB v K both colours).",
         note="The evaluation function itself is not modelled (uninterpreted).", ref="DESIGN.md section 4 C17"),
     "C18": dict(
         cat="model_checking", tech="See.tla: recursive capture-sequence minimax returning the set of achievable balances; TLC requires the SEE answers over 109 thresholds to match one balance",
@@ -88,11 +88,11 @@ CHECKS.update({
         note="Sampled positions.", ref="DESIGN.md section 4 C18"),
     "C19": dict(
         cat="exploration", tech="TLC judges recorded float/int evaluation pairs and the vector mapping against Tuner.tla's dense-packing model",
-        text="Float evaluation with the shipped coefficients vs integer evaluation on generated valid positions loaded without hash (|f*1000 - i*1000*sign| < 2250); vector mapping: for every singleton, pairs, random subsets and the default target list, SetVector/ToVector/TunedParams must address PathOf(layout, targets, k) for probed k.",
+        text="Float evaluation with the shipped coefficients vs integer evaluation on generated valid positions loaded without hash (|f*1000 - i*1000*sign| < 2250); vector mapping: for every singleton, pairs, random subsets and the default target list, SetVector/ToVector/TunedParams must address PathOf(layout, targets, k) for probed k, with fresh target slices and with choices built in one reused buffer.",
         note="Both evaluations are opaque to the model.", ref="DESIGN.md section 4 C19"),
     "C20": dict(
         cat="model_checking", tech="Tuner.tla: 4-round unbalanced Feistel with ARBITRARY round functions is a bijection (all widths, TLC), cycle walking a permutation, batches/chunks partition; TunerTrace.tla validates every NewChunker/Batches/Chunks/Open/Read call on generated files",
-        text="Files with every line count 1..40 (200), powers of two +-1, blank lines inside and at the end, lines near 4 KiB, 100k+ lines (several batches; short remainders) and a 36 MB big-line file (read-buffer refills), driven as server.go/client.go do; shuffle permutations for all n <= 3000 (20000), 16 epochs + random 64-bit epochs, windows up to 2^24+1.",
+        text="Files with every line count 1..40 (200), powers of two +-1, blank lines inside and at the end, lines near 4 KiB, 100k+ lines (several batches; short remainders) and a 36 MB big-line file (read-buffer refills), driven as server.go/client.go do; every epoch also read with up to four chunks of one Chunker open at once (alternating Reads, as the client's worker threads do); Batches/Chunks as pure functions of n for thousands of n around multiples of 100,000 against Tuner.tla; shuffle permutations for all n <= 3000 (8000), 16 epochs + random 64-bit epochs, windows up to 2^24+1.",
         note="Feistel model is bound to the code through outputs only (64-bit arithmetic is outside TLC).", ref="DESIGN.md section 4 C20"),
 })
 
@@ -138,7 +138,7 @@ def main():
             "kind_free_text": "explicit TLA+ specification (/verif/spec) checked by TLC/Apalache; Go recorders replay/record the real packages; TLC validates every recorded event against the specification",
         }],
         "checks": checks,
-        "notes": "Exit 2 from a check means infrastructure failure (no verdict). Known findings: /verif/known_findings.json.",
+        "notes": "Exit 2 from a check means infrastructure failure (no verdict). Known findings: /verif/known_findings.json. Beyond the listed properties: `bin/ext sched` model-checks TunerSched.tla (the tuner's distributed job scheduling) and validates the real server loop against it (DESIGN.md section 14; rules S/..., EXT-MISMATCH, never VIOLATION).",
         "not_applicable": na,
     }
     with open(os.path.join(VERIF, "MANIFEST.json"), "w") as f:
